@@ -35,7 +35,7 @@ pub fn generate(ctx: &mut Ctx) {
         }
         bi += 1;
     }
-    let n = ctx.by_tier(60_000u64, 3_000_000u64) / ctx.nshards;
+    let n = ctx.random_budget(480, 60_000, 3_000_000);
     for i in 0..n {
         let mut rng = ctx.rng("ref", i);
         let mut o = gen::Opts::new(rng.chance(1, 2));
